@@ -5,6 +5,8 @@ for s in ${SEEDS:-11 12 13}; do
   for id in C01 C02 C03 C04 C05 C06 C07 C08 C09 C10 C11 C12 C13 C14 C15 C16 C17 C18 C19 C20; do
     out=$(VERIF_SEED=$s ./check $id quick 2>&1); rc=$?
     echo "seed=$s $id rc=$rc $(echo "$out" | grep -E '^(OK|VIOLATION|INCONCLUSIVE)' | tail -1)"
-    [ $rc -ne 0 ] && echo "$out" | grep -v genesis | tail -25
+    if [ $rc -ne 0 ]; then bad=$((bad+1)); echo "$out" | grep -v genesis | tail -25; fi
   done
 done
+echo "SOAK failures=${bad:-0}"
+[ "${bad:-0}" -eq 0 ]
